@@ -61,6 +61,8 @@ def run(chk):
     common.run_random(chk, drivers.c03_program, 600 * k, 122, lsb0=True)
     common.run_random(chk, drivers.c06_program, 600 * k, 123, lsb0=True)
     common.run_random(chk, drivers.c07_program, 1200 * k, 124, lsb0=True, huge=0.03 if thorough else 0.005)
+    # searches in data longer than one 8192-bit search chunk, occurrences planted next to the chunk edges from either end
+    common.run_random(chk, drivers.c07_program, 60 * k, 126, lsb0=True, huge=1.0)
     rng = random.Random(chk.seed * 31 + 125)
     chk.queue([toggle_program(rng) for _ in range(800 * k)], 'random-toggle')
     # whole-value interpretations are identical in both modes; pack / unpack / reads mirror their order
